@@ -84,13 +84,15 @@ def gen_core(op):
     raise ValueError(f"unknown op {op}")
 
 
-def gen_step_body(i, step, indent):
+def gen_step_body(i, step, indent, live=False):
     pre = []
     for ident, attrs in step.get("loc", []):
         pre.append(f"{T.IDENT[ident]} = pvsink.mkobj({', '.join(f'{T.IDENT[k]}={lit(v)}' for k, v in attrs)})")
     core, kind, fresh = gen_core(step["op"])
     lines = pre + ["try:"] + ["    " + c for c in core] + [f"    pvsink.ok({i}, r, {kind!r}, {fresh})",
                                                            "except Exception as exc:", f"    pvsink.exc({i}, exc)"]
+    if live:   # at global level the step's "local" variables would persist: remove them again
+        lines += [f"del {T.IDENT[ident]}" for ident, _a in step.get("loc", [])]
     return [indent + ln for ln in lines]
 
 
@@ -157,9 +159,12 @@ async def run_case(case):
         await State.get_service_params()
         await env.settle()
         gctx = GlobalContextMgr.get(CTX)
-        if gctx is None:
-            raise RuntimeError("script context missing: " + repr(env.log.records[-5:]))
-        gst = gctx.global_sym_table
+        load_failed = None
+        if gctx is None or (case["mode"] == "func" and "pv_step" not in gctx.global_sym_table):
+            # the generated script did not load (e.g. a seeded change broke `pvsink.mkobj`): that is an observation,
+            # not an infrastructure error - every script step reports it and the Model/Spec comparison fails
+            load_failed = repr([r for r in env.log.records if r[1] == "ERROR"][-1:])[:300]
+        gst = gctx.global_sym_table if gctx is not None else {}
         out.append({"res": None, **observe(hass, gst)})   # initial state
         for i, step in enumerate(case["steps"]):
             if step["t"] == "x":
@@ -178,13 +183,16 @@ async def run_case(case):
                 await env.settle()
                 out.append({"res": None, **observe(hass, gst)})
                 continue
+            if load_failed is not None:
+                out.append({"res": {"exc": "ScriptLoadFailed", "msg": load_failed}, **observe(hass, gst)})
+                continue
             if case["mode"] == "func":
                 await hass.services.async_call("pyscript", "pv_step", {"i": i}, blocking=True)
                 await env.settle()
             else:
                 a = AstEval(f"{CTX}.live{i}", gctx)
                 Function.install_ast_funcs(a)
-                a.parse("\n".join(gen_step_body(i, step, "")) + "\n")
+                a.parse("\n".join(gen_step_body(i, step, "", live=True)) + "\n")
                 await a.eval()
                 await env.settle()
             res = sink.RECORDS.get(i)
@@ -197,6 +205,7 @@ async def run_case(case):
 
 def main():
     req = json.loads(sys.stdin.read())
+    T.IDENT.update({int(k): v for k, v in req.get("idents", {}).items()})   # names allocated by the translator
     res = []
     for case in req["cases"]:
         try:
